@@ -158,6 +158,11 @@ def call(ex, st, fr, callee, last, args, argops, dest):
         _use("core::num::<impl int>::unsigned_abs")
         x = args[0].t
         uty = "u" + ity[1:]
+        k = st.known(T.le(0, x))
+        if k is True:
+            return IV(x, uty)
+        if k is False:
+            return IV(T.neg(x), uty)
         return IV(T.ite(T.le(0, x), x, T.neg(x)), uty)
     if ity and c.endswith(">::abs"):
         _use("core::num::<impl int>::abs (inherits overflow checks)")
@@ -168,9 +173,11 @@ def call(ex, st, fr, callee, last, args, argops, dest):
                 return _panic(ex, st, "attempt to negate with overflow") if ex.prog.overflow_checks else IV(lo, ity)
             return IV(abs(x), ity)
         ismin = (x == lo)
-        if ismin.get_id() in st.false_ids:
-            return IV(z3.If(x >= 0, x, -x), ity)
-        alts = [(x != lo, IV(z3.If(x >= 0, x, -x), ity))]
+        k = st.known(x >= 0)
+        absx = x if k is True else (-x if k is False else z3.If(x >= 0, x, -x))
+        if ismin.get_id() in st.false_ids or k is True:
+            return IV(absx, ity)
+        alts = [(x != lo, IV(absx, ity))]
         if ex.prog.overflow_checks:
             alts.append((ismin, _panic(ex, st, "attempt to negate with overflow")))
         else:
@@ -182,7 +189,8 @@ def call(ex, st, fr, callee, last, args, argops, dest):
         return IV(T.ite(T.lt(x, 0), -1, T.ite(T.eq(x, 0), 0, 1)), ity)
     if ity and c.endswith(">::is_negative"):
         _use("core::num::<impl int>::is_negative")
-        return T.lt(args[0].t, 0)
+        k = st.known(T.lt(args[0].t, 0))
+        return T.lt(args[0].t, 0) if k is None else k
     if ity and c.endswith(">::is_positive"):
         _use("core::num::<impl int>::is_positive")
         return T.lt(0, args[0].t)
